@@ -28,8 +28,8 @@ import (
 	"pgregory.net/rapid"
 	"verif/gen/bytegen"
 	"verif/gen/famgen"
-	"verif/internal/costmeas"
 	"verif/gen/sqlgen"
+	"verif/internal/costmeas"
 	"verif/internal/hx"
 )
 
